@@ -63,6 +63,13 @@ Record storage := mk_storage { s_buf : sbuf (option value); s_trie : smap; s_dir
 Record handle := mk_handle { h_cid : key; h_obj : option nat }.
 Record bsnap := mk_bsnap { bs_state : nat; bs_storage : list (key * nat) }.
 
+(** state.AccountState (state/account.go): [oldState] is the pointer GetState returned (the
+    buffered object itself when the account is in the buffer: [ah_optr]), [newState] a Clone with
+    its own identity [ah_ptr]; Add/SubBalance write through [newState]; PutState stores the
+    [newState] pointer in the buffer — from then on the handle aliases the buffered entry. *)
+Record ahandle := mk_ah { ah_aid : key; ah_optr : option nat; ah_obal : N; ah_oroot : smap;
+                          ah_ptr : nat; ah_bal : N; ah_root : smap; ah_new : bool }.
+
 Record sdb := mk_sdb {
   d_buf : sbuf aval;                 (* StateDB.Buffer *)
   d_cache : list (key * nat);        (* StateDB.Cache.storages: contract id -> object *)
@@ -74,23 +81,27 @@ Record sdb := mk_sdb {
   (* values held by the caller (the engine / the executor) *)
   d_handles : list handle;           (* ContractState handles, in opening order *)
   d_snaps : list bsnap;              (* BlockSnapshot values, in taking order *)
-  d_csnaps : list (nat * nat)        (* ContractState.Snapshot values: (handle, revision) *)
+  d_csnaps : list (nat * nat);       (* ContractState.Snapshot values: (handle, revision) *)
+  d_ah : list ahandle                (* state.AccountState handles, in creation order *)
 }.
 
 Definition sdb_new (trie : amap) (sa : list acontent) (sv : list value) : sdb :=
   {| d_buf := sb_new; d_cache := []; d_heap := []; d_trie := trie; d_store_a := sa; d_store_v := sv;
-     d_nptr := 0; d_handles := []; d_snaps := []; d_csnaps := [] |}.
+     d_nptr := 0; d_handles := []; d_snaps := []; d_csnaps := []; d_ah := [] |}.
 
 Definition set_buf (d : sdb) (b : sbuf aval) : sdb :=
-  mk_sdb b (d_cache d) (d_heap d) (d_trie d) (d_store_a d) (d_store_v d) (d_nptr d) (d_handles d) (d_snaps d) (d_csnaps d).
+  mk_sdb b (d_cache d) (d_heap d) (d_trie d) (d_store_a d) (d_store_v d) (d_nptr d) (d_handles d) (d_snaps d) (d_csnaps d) (d_ah d).
 Definition set_cache (d : sdb) (c : list (key * nat)) : sdb :=
-  mk_sdb (d_buf d) c (d_heap d) (d_trie d) (d_store_a d) (d_store_v d) (d_nptr d) (d_handles d) (d_snaps d) (d_csnaps d).
+  mk_sdb (d_buf d) c (d_heap d) (d_trie d) (d_store_a d) (d_store_v d) (d_nptr d) (d_handles d) (d_snaps d) (d_csnaps d) (d_ah d).
 Definition set_heap (d : sdb) (h : list storage) : sdb :=
-  mk_sdb (d_buf d) (d_cache d) h (d_trie d) (d_store_a d) (d_store_v d) (d_nptr d) (d_handles d) (d_snaps d) (d_csnaps d).
+  mk_sdb (d_buf d) (d_cache d) h (d_trie d) (d_store_a d) (d_store_v d) (d_nptr d) (d_handles d) (d_snaps d) (d_csnaps d) (d_ah d).
 Definition set_handles (d : sdb) (h : list handle) : sdb :=
-  mk_sdb (d_buf d) (d_cache d) (d_heap d) (d_trie d) (d_store_a d) (d_store_v d) (d_nptr d) h (d_snaps d) (d_csnaps d).
+  mk_sdb (d_buf d) (d_cache d) (d_heap d) (d_trie d) (d_store_a d) (d_store_v d) (d_nptr d) h (d_snaps d) (d_csnaps d) (d_ah d).
 Definition set_nptr (d : sdb) (n : nat) : sdb :=
-  mk_sdb (d_buf d) (d_cache d) (d_heap d) (d_trie d) (d_store_a d) (d_store_v d) n (d_handles d) (d_snaps d) (d_csnaps d).
+  mk_sdb (d_buf d) (d_cache d) (d_heap d) (d_trie d) (d_store_a d) (d_store_v d) n (d_handles d) (d_snaps d) (d_csnaps d) (d_ah d).
+
+Definition set_ah (d : sdb) (l : list ahandle) : sdb :=
+  mk_sdb (d_buf d) (d_cache d) (d_heap d) (d_trie d) (d_store_a d) (d_store_v d) (d_nptr d) (d_handles d) (d_snaps d) (d_csnaps d) l.
 
 Fixpoint list_set {A} (l : list A) (i : nat) (a : A) : list A :=
   match l, i with
@@ -171,6 +182,23 @@ Definition poke_root (p : nat) (root : smap) (b : sbuf aval) : sbuf aval :=
                         then (fst e, mk_aval p (a_bal (snd e)) root) else e) (entries b))
           (index b) (next_idx b).
 
+(** the same write seen through AccountState handles that hold the object: as their
+    newState (after PutState) or as their oldState (fetched after somebody's PutState) *)
+Definition poke_ah_root (p : nat) (root : smap) (l : list ahandle) : list ahandle :=
+  map (fun h => mk_ah (ah_aid h) (ah_optr h) (ah_obal h)
+                      (match ah_optr h with Some q => if Nat.eqb q p then root else ah_oroot h | None => ah_oroot h end)
+                      (ah_ptr h) (ah_bal h) (if Nat.eqb (ah_ptr h) p then root else ah_root h) (ah_new h)) l.
+(** newState.Balance = bal written through the newState pointer [p] of a handle: buffered
+    entries holding [p] (the handle was PutState'd) and handles whose oldState is [p] change *)
+Definition poke_bal (p : nat) (bal : N) (b : sbuf aval) : sbuf aval :=
+  mk_sbuf (map (fun e => if Nat.eqb (a_ptr (snd e)) p
+                        then (fst e, mk_aval p bal (a_root (snd e))) else e) (entries b))
+          (index b) (next_idx b).
+Definition poke_ah_obal (p : nat) (bal : N) (l : list ahandle) : list ahandle :=
+  map (fun h => mk_ah (ah_aid h) (ah_optr h)
+                      (match ah_optr h with Some q => if Nat.eqb q p then bal else ah_obal h | None => ah_obal h end)
+                      (ah_oroot h) (ah_ptr h) (ah_bal h) (ah_root h) (ah_new h)) l.
+
 (** StateDB.updateStorage, one cached storage *)
 Definition update_one (d : sdb) (cid : key) (o : nat) : res sdb :=
   bind (of_opt (nth_error (d_heap d) o)) (fun st =>
@@ -182,7 +210,8 @@ Definition update_one (d : sdb) (cid : key) (o : nat) : res sdb :=
     bind (get_state_ptr d1 cid) (fun cur =>
     match cur with
     | Some (Some p, (bal, _)) =>
-        Ok (set_buf d1 (sb_put (poke_root p trie' (d_buf d1)) (cid, mk_aval p bal trie')))
+        Ok (set_ah (set_buf d1 (sb_put (poke_root p trie' (d_buf d1)) (cid, mk_aval p bal trie')))
+                   (poke_ah_root p trie' (d_ah d1)))
     | Some (None, (bal, _)) =>
         Ok (set_nptr (set_buf d1 (sb_put (d_buf d1) (cid, mk_aval (d_nptr d1) bal trie'))) (S (d_nptr d1)))
     | None =>
@@ -199,7 +228,7 @@ Definition db_update (d : sdb) : res sdb :=
   bind (update_storages d (d_cache d)) (fun d1 =>
   bind (sb_export (d_buf d1)) (fun ex =>
   Ok (mk_sdb (d_buf d1) (d_cache d1) (d_heap d1) (apply_export_a (d_trie d1) ex) (d_store_a d1) (d_store_v d1)
-             (d_nptr d1) (d_handles d1) (d_snaps d1) (d_csnaps d1)))).
+             (d_nptr d1) (d_handles d1) (d_snaps d1) (d_csnaps d1) (d_ah d1)))).
 
 Fixpoint somes {A} (l : list (option A)) : list A :=
   match l with [] => [] | Some a :: tl => a :: somes tl | None :: tl => somes tl end.
@@ -213,7 +242,7 @@ Fixpoint commit_storages (d : sdb) (c : list (key * nat)) : res sdb :=
       bind (sb_reset (s_buf st)) (fun b =>
       let d1 := mk_sdb (d_buf d) (d_cache d) (list_set (d_heap d) o (mk_storage b (s_trie st) (s_dirty st)))
                        (d_trie d) (d_store_a d) (d_store_v d ++ somes (map snd staged)) (d_nptr d)
-                       (d_handles d) (d_snaps d) (d_csnaps d) in
+                       (d_handles d) (d_snaps d) (d_csnaps d) (d_ah d) in
       commit_storages d1 tl)))
   end.
 Definition db_commit (d : sdb) : res sdb :=
@@ -221,7 +250,7 @@ Definition db_commit (d : sdb) : res sdb :=
   bind (sb_stage (d_buf d1)) (fun staged =>
   bind (sb_reset (d_buf d1)) (fun b =>
   Ok (mk_sdb b (d_cache d1) (d_heap d1) (d_trie d1) (d_store_a d1 ++ map (fun e => content (snd e)) staged)
-             (d_store_v d1) (d_nptr d1) (d_handles d1) (d_snaps d1) (d_csnaps d1))))).
+             (d_store_v d1) (d_nptr d1) (d_handles d1) (d_snaps d1) (d_csnaps d1) (d_ah d1))))).
 
 (** ---- the operations driven by the engine ---- *)
 Inductive op :=
@@ -236,7 +265,17 @@ Inductive op :=
 | OCRollback (j : nat)              (* ContractState.Rollback(contract snapshot j) *)
 | OUpdate | OCommit
 | OReopen                           (* NewStateDB(store, GetRoot()): only issued right after Commit *)
-| OClear.                           (* the caller forgets all its handles and contract snapshots *)
+| OClear                            (* the caller forgets all its handles and contract snapshots *)
+| OAGet (a : key)                   (* state.GetAccountState(a): AccountState handle appended to its table *)
+| OAAdd (h : nat) (v : N)           (* AccountState.AddBalance *)
+| OASub (h : nat) (v : N)           (* AccountState.SubBalance (big.Int.Bytes drops the sign) *)
+| OAPut (h : nat)                   (* AccountState.PutState *)
+| OAReset (h : nat).                (* AccountState.Reset: newState = oldState.Clone() *)
+
+(** Add/SubBalance through handle [h]: the handle's newState object gets the new balance *)
+Definition ah_write (d : sdb) (h : nat) (ah : ahandle) (bal : N) : sdb :=
+  let l := list_set (d_ah d) h (mk_ah (ah_aid ah) (ah_optr ah) (ah_obal ah) (ah_oroot ah) (ah_ptr ah) bal (ah_root ah) (ah_new ah)) in
+  set_ah (set_buf d (poke_bal (ah_ptr ah) bal (d_buf d))) (poke_ah_obal (ah_ptr ah) bal l).
 
 Definition block_snapshot (d : sdb) : res bsnap :=
   bind (cache_snapshot (d_heap d) (d_cache d)) (fun cs => Ok (mk_bsnap (sb_snapshot (d_buf d)) cs)).
@@ -268,13 +307,13 @@ Definition step (d : sdb) (o : op) : res sdb :=
   | OSnap =>
       bind (block_snapshot d) (fun s =>
       Ok (mk_sdb (d_buf d) (d_cache d) (d_heap d) (d_trie d) (d_store_a d) (d_store_v d) (d_nptr d)
-                 (d_handles d) (d_snaps d ++ [s]) (d_csnaps d)))
+                 (d_handles d) (d_snaps d ++ [s]) (d_csnaps d) (d_ah d)))
   | ORollback i => bind (of_opt (nth_error (d_snaps d) i)) (fun s => block_rollback d s)
   | OCSnap h =>
       bind (live_obj d h) (fun co =>
       bind (of_opt (nth_error (d_heap d) (snd co))) (fun st =>
       Ok (mk_sdb (d_buf d) (d_cache d) (d_heap d) (d_trie d) (d_store_a d) (d_store_v d) (d_nptr d)
-                 (d_handles d) (d_snaps d) (d_csnaps d ++ [(h, sb_snapshot (s_buf st))]))))
+                 (d_handles d) (d_snaps d) (d_csnaps d ++ [(h, sb_snapshot (s_buf st))]) (d_ah d))))
   | OCRollback j =>
       bind (of_opt (nth_error (d_csnaps d) j)) (fun hr =>
       bind (live_obj d (fst hr)) (fun co => heap_rollback d (snd co) (snd hr)))
@@ -283,7 +322,27 @@ Definition step (d : sdb) (o : op) : res sdb :=
   | OReopen => Ok (sdb_new (d_trie d) (d_store_a d) (d_store_v d))
   | OClear =>
       Ok (mk_sdb (d_buf d) (d_cache d) (d_heap d) (d_trie d) (d_store_a d) (d_store_v d) (d_nptr d)
-                 [] (d_snaps d) [])
+                 [] (d_snaps d) [] [])
+  | OAGet a =>
+      bind (get_state_ptr d a) (fun cur =>
+      let h := match cur with
+               | Some (op, (bal, rt)) => mk_ah a op bal rt (d_nptr d) bal rt false
+               | None => mk_ah a None 0%N [] (d_nptr d) 0%N [] true
+               end in
+      Ok (set_nptr (set_ah d (d_ah d ++ [h])) (S (d_nptr d))))
+  | OAAdd h v =>
+      bind (of_opt (nth_error (d_ah d) h)) (fun ah => Ok (ah_write d h ah (ah_bal ah + v)%N))
+  | OASub h v =>
+      bind (of_opt (nth_error (d_ah d) h)) (fun ah =>
+      Ok (ah_write d h ah (if (v <=? ah_bal ah)%N then (ah_bal ah - v)%N else (v - ah_bal ah)%N)))
+  | OAPut h =>
+      bind (of_opt (nth_error (d_ah d) h)) (fun ah =>
+      Ok (set_buf d (sb_put (d_buf d) (ah_aid ah, mk_aval (ah_ptr ah) (ah_bal ah) (ah_root ah)))))
+  | OAReset h =>
+      bind (of_opt (nth_error (d_ah d) h)) (fun ah =>
+      Ok (set_nptr (set_ah d (list_set (d_ah d) h
+            (mk_ah (ah_aid ah) (ah_optr ah) (ah_obal ah) (ah_oroot ah) (d_nptr d) (ah_obal ah) (ah_oroot ah) (ah_new ah))))
+                   (S (d_nptr d))))
   end.
 
 Fixpoint run (d : sdb) (ops : list op) : res sdb :=
@@ -339,6 +398,9 @@ Definition obs_abuf (d : sdb) : res (list N * list root) :=
   Ok (nN (next_idx (d_buf d)) :: nN (length ex) :: concat (map (fun e => [fst e; a_bal (snd e)]) ex),
       map (fun e => RS (a_root (snd e))) ex)).
 
+Definition obs_ahandle (h : ahandle) : list N * list root :=
+  ([ah_bal h; if ah_new h then 1%N else 0%N], [RS (ah_root h)]).
+
 Definition cat2 (l : list (list N * list root)) : list N * list root :=
   (concat (map fst l), concat (map snd l)).
 
@@ -350,7 +412,9 @@ Definition observe (ua uk : list key) (d : sdb) : res (list N * list root) :=
   let '(n1, r1) := cat2 oa in
   let '(n2, r2) := cat2 oh in
   let '(n3, r3) := cat2 oc in
-  Ok (n1 ++ nN (length (d_handles d)) :: n2 ++ n3 ++ fst ob, r1 ++ r3 ++ snd ob ++ [RA (d_trie d)]))))).
+  let '(n4, r4) := cat2 (map obs_ahandle (d_ah d)) in
+  Ok (n1 ++ nN (length (d_handles d)) :: n2 ++ n3 ++ fst ob ++ nN (length (d_ah d)) :: n4,
+      r1 ++ r3 ++ snd ob ++ r4 ++ [RA (d_trie d)]))))).
 
 (** implementation roots are opaque byte strings, numbered by the check script; the model's
     roots are maps.  Both must induce the same equalities: a partial bijection is extended
